@@ -965,12 +965,19 @@ impl<R: std::io::Read> FlacChannelReader<R> {
                 .collect())
         } else {
             let channels = usize::from(self.decoder.channel_count().get());
-            match self.decoder.read_frame()? {
-                Some(frame) => {
+            match self.decoder.read_frame() {
+                Ok(Some(_)) => {
                     self.consumed = 0;
-                    Ok(frame.channels().collect())
+                    Ok(self.decoder.buf.channels().collect())
                 }
-                None => Ok(vec![&[]; channels]),
+                Ok(None) => Ok(vec![&[]; channels]),
+                Err(err) => {
+                    // the frame buffer may now hold a partially decoded frame
+                    // of a different length than the previous one:
+                    // mark all of it consumed so it is never handed out
+                    self.consumed = self.decoder.buf.pcm_frames();
+                    Err(err)
+                }
             }
         }
     }
